@@ -3,6 +3,7 @@ arcadrv — the model side of the correspondence checks. Reads one JSON case per
 per line. `arcadrv <command> [args]`.
 -/
 import Arca.Driver.Loop
+import Arca.Driver.Builtins
 
 open Lean (Json)
 open Arca.Driver
@@ -29,4 +30,5 @@ def cmdLoop (args : List String) : IO Unit := do
 def main (args : List String) : IO UInt32 := do
   match args with
   | "loop" :: rest => cmdLoop rest; return 0
+  | "builtins" :: rest => cmdBuiltins rest; return 0
   | _ => IO.eprintln "usage: arcadrv loop [errCap]"; return 2
